@@ -155,7 +155,17 @@ def replay(p):
 
 
 # ------------------------------------------------------------------ symbolic harnesses
+def _explore(build):
+    """all feasible paths, or the PathLimit exception (reported as inconclusive: the bound of the shape exceeds the path budget)"""
+    try:
+        return sb.explore(build, max_paths=30000)
+    except sb.PathLimit as e:
+        return e
+
+
 def _finish(name, paths, claims_of, spec, kind, symbols):
+    if isinstance(paths, Exception):
+        return [{"name": name, "status": INCONCLUSIVE, "symbols": ["matrix bits"], "detail": f"path budget exceeded for this shape: {paths}"}]
     """paths: [(S, value)], claims_of(S, value) -> list of (label, z3 Bool).  One record per instance."""
     t_solver = 0.0
     queries = 0
@@ -215,7 +225,7 @@ def work(item):
                 out.append((f"kernel membership of {x}", in_kernel(M0, x) == in_kernel(R, x)))
             return out
 
-        paths = sb.explore(build)
+        paths = _explore(build)
         return _finish(name, paths, claims, spec, "rref", [f"M[{r}x{c}] entries: {r * c} free bits"])
     if kind == "rank":
         r, c = shape
@@ -235,7 +245,7 @@ def work(item):
             return [("rank = c - log2|ker|", nker == 2 ** (c - rk) if 0 <= rk <= c else z3.BoolVal(False)),
                     ("input not modified", sb.zand([sb.z(M[idx]) == sb.z(M0[idx]) for idx in np.ndindex(r, c)]))]
 
-        paths = sb.explore(build)
+        paths = _explore(build)
         return _finish(name, paths, claims, spec, "rank", [f"M[{r}x{c}] entries: {r * c} free bits"])
     if kind == "solve":
         n = shape
@@ -261,7 +271,7 @@ def work(item):
             eqs = [sb.zxor([z3.And(sb.z(A0[i, j]), sb.z(x[j])) for j in range(n)]) == sb.z(b0[i]) for i in range(n)]
             return [("A x = b", z3.And(*eqs)), ("no error only for regular A", z3.Not(singular))]
 
-        paths = sb.explore(build)
+        paths = _explore(build)
         return _finish(name, paths, claims, spec, "solve", [f"A[{n}x{n}], b[{n}]: {n * n + n} free bits"])
     if kind == "indep":
         r, m = shape
@@ -281,7 +291,7 @@ def work(item):
             got = sb.z(got) if isinstance(got, sb.Bit) else z3.BoolVal(bool(got))
             return [("independent <=> not in span", got == z3.Not(in_colspan(B, v)))]
 
-        paths = sb.explore(build)
+        paths = _explore(build)
         return _finish(name, paths, claims, spec, "indep", [f"B[{r}x{m}], v[{r}]: {r * m + r} free bits"])
     if kind == "basis":
         r, m = shape
@@ -309,7 +319,7 @@ def work(item):
                 out.append((f"selected column {j} is an input column", sb.zor([sb.zand([sb.z(basis[i, j]) == sb.z(M[i, jj]) for i in range(r)]) for jj in range(m)])))
             return out
 
-        paths = sb.explore(build)
+        paths = _explore(build)
         return _finish(name, paths, claims, spec, "basis", [f"S[{r}x{m}]: {r * m} free bits"])
     raise KeyError(kind)
 
